@@ -3,6 +3,7 @@ pub mod drive;
 pub mod geom;
 pub mod oracle;
 pub mod refsort;
+pub mod systematic;
 
 use crate::common::*;
 use crate::exec::Abort;
@@ -506,6 +507,32 @@ impl Engine for TrackerEngine {
         json!({ "tracker": serde_json::to_value(&c).unwrap(), "calm": calm, "variants": variants })
     }
 
+    fn gen_indexed(&self, index: u64, seed: u64, thorough: bool) -> Value {
+        if self.prop != "C03" {
+            return self.gen(seed, thorough);
+        }
+        // small-scope lifecycle sub-batch (see systematic.rs): after the random runs in the
+        // quick tier (their indices and cases stay what they were), first in the thorough tier
+        let len = if thorough { 4 } else { 2 };
+        let sys = systematic::total(len);
+        let random = self.random_runs(thorough);
+        let sys_index = if thorough {
+            if index >= sys {
+                return self.gen(seed, thorough);
+            }
+            index
+        } else {
+            if index < random {
+                return self.gen(seed, thorough);
+            }
+            index - random
+        };
+        let c = systematic::case(sys_index, len);
+        let mut r = Rng::new(mix(seed, 0x73));
+        let variants: Vec<Value> = vec![json!({"periodicity": *r.pick(&[0usize, 1, 2, 100])})];
+        json!({ "tracker": serde_json::to_value(&c).unwrap(), "calm": index % 4 == 0, "variants": variants, "systematic": true })
+    }
+
     fn run(&self, case: &Value, plan: &SchedPlan) -> Outcome {
         let tc: TrackerCase = serde_json::from_value(case["tracker"].clone()).expect("tracker case");
         let variants: Vec<Value> = case["variants"].as_array().cloned().unwrap_or_default();
@@ -798,6 +825,13 @@ impl Engine for TrackerEngine {
     }
 
     fn runs(&self, thorough: bool) -> u64 {
+        let extra = if self.prop == "C03" { systematic::total(if thorough { 4 } else { 2 }) } else { 0 };
+        self.random_runs(thorough) + extra
+    }
+}
+
+impl TrackerEngine {
+    fn random_runs(&self, thorough: bool) -> u64 {
         match (self.prop, thorough) {
             ("C01", false) => 3000,
             ("C01", true) => 150_000,
